@@ -40,6 +40,7 @@ from .astutil import fold, NotConstant, unparse, dotted
 from .pathwalk import DEFAULT_OPAQUE
 
 OPAQUE = set(DEFAULT_OPAQUE) | {'parse_immediate', 'is_int', 'lookup_register'}
+NON_NONE = {'func', 'closure', 'classref', 'list', 'rest', 'tok', 'tokend', 'lower', 'line', 'imm', 'int', 'ref', 'star'}
 MAX_PATHS = 20000
 MAX_DEPTH = 12
 
@@ -58,6 +59,33 @@ def _replace(node, target, repl):
         elif isinstance(value, list):
             setattr(new, field, [_replace(x, target, repl) if isinstance(x, ast.AST) else x for x in value])
     return new
+
+
+def table_values(facts, ref):
+    """Set of names of a ('ref', NAME) / ('const', collection) value, or None."""
+    if ref[0] == 'ref':
+        t = facts.tables.get(ref[1])
+        if t is not None:
+            return set(t)
+        s_ = facts.sets.get(ref[1])
+        return set(s_) if s_ is not None else None
+    if ref[0] == 'const' and isinstance(ref[1], (set, frozenset, list, tuple, dict)):
+        return set(ref[1])
+    return None
+
+
+def admits(facts, path, head):
+    """Can a line whose lower-cased first token is `head` take this path?  Decided from the path's facts about the head (tests
+    of earlier arms that came out negative included, so first-match-wins dispatch is honoured)."""
+    for f in path.head_facts:
+        if f[0] == 'eq':
+            if (head == f[1]) != f[2]:
+                return False
+        elif f[0] == 'in':
+            vals = table_values(facts, f[1])
+            if vals is not None and (head in vals) != f[2]:
+                return False
+    return True
 
 
 class Path:
@@ -161,16 +189,7 @@ class TokenFlow:
         return None
 
     def table_values(self, ref):
-        """Set of mnemonics of a ('ref', NAME) / ('const', collection) value, or None."""
-        if ref[0] == 'ref':
-            t = self.facts.tables.get(ref[1])
-            if t is not None:
-                return set(t)
-            s = self.facts.sets.get(ref[1])
-            return set(s) if s is not None else None
-        if ref[0] == 'const' and isinstance(ref[1], (set, frozenset, list, tuple, dict)):
-            return set(ref[1])
-        return None
+        return table_values(self.facts, ref)
 
     # -- expressions ----------------------------------------------------------------------------------------------------------
     def ev(self, node, path):
@@ -236,6 +255,10 @@ class TokenFlow:
             return ('expr', unparse(node))
         if isinstance(node, ast.Call):
             return self._call_value(node, path)
+        if isinstance(node, ast.BinOp) and isinstance(node.op, ast.Add):
+            a, b = self.ev(node.left, path), self.ev(node.right, path)
+            if a[0] == 'list' and b[0] == 'list':
+                return ('list', a[1] + b[1])
         if isinstance(node, ast.IfExp):
             d = self.decide(node.test, path)
             if d is not None:
@@ -350,6 +373,8 @@ class TokenFlow:
             left = self.ev(test.left, path)
             right = self.ev(test.comparators[0], path)
             op = test.ops[0]
+            if right == ('const', None) and isinstance(op, (ast.Is, ast.IsNot, ast.Eq, ast.NotEq)) and left[0] in NON_NONE:
+                return isinstance(op, (ast.IsNot, ast.NotEq))
             if left[0] == 'const' and right[0] == 'const':
                 try:
                     a, b = left[1], right[1]
@@ -371,6 +396,12 @@ class TokenFlow:
                             return f[2] == isinstance(op, ast.In)
                     vals = self.table_values(right)
                     if vals is not None:
+                        excluded = set()
+                        for f in path.head_facts:
+                            if not f[2]:
+                                excluded |= {f[1]} if f[0] == 'eq' else (self.table_values(f[1]) or set())
+                        if vals <= excluded:
+                            return isinstance(op, ast.NotIn)
                         cands = self.head_candidates(path)
                         if eq:
                             cands = {eq[0]}
@@ -389,6 +420,8 @@ class TokenFlow:
         v = self.ev(test, path)
         if v[0] == 'const':
             return bool(v[1])
+        if v[0] in ('func', 'closure', 'classref', 'line'):
+            return True
         if v[0] == 'list' and not any(x[0] == 'star' for x in v[1]):
             return bool(v[1])
         return None
@@ -540,7 +573,7 @@ class TokenFlow:
             return None
         if any(f.name == fname and f.node is fn for f in self._frames) or len(self._frames) >= MAX_DEPTH:
             return None
-        if fn.args.vararg or fn.args.kwarg or any(isinstance(a, ast.Starred) for a in call.args) or any(k.arg is None for k in call.keywords):
+        if fn.args.kwarg or any(isinstance(a, ast.Starred) for a in call.args) or any(k.arg is None for k in call.keywords):
             return None
         if fn.decorator_list:
             return None
@@ -551,10 +584,12 @@ class TokenFlow:
         fn, cenv, fname = self._callee(call, path)
         a = fn.args
         pos = [x.arg for x in a.posonlyargs + a.args]
-        if len(call.args) > len(pos):
+        if len(call.args) > len(pos) and not a.vararg:
             raise AnalysisError('token-flow: call {} passes more positional arguments than {} takes'.format(unparse(call), fname))
         env = dict(cenv) if cenv is not None else {}
         bound = set()
+        if a.vararg:
+            env[a.vararg.arg] = ('list', [self.ev(x, path) for x in call.args[len(pos):]])
         for p_, arg in zip(pos, call.args):
             env[p_] = self.ev(arg, path)
             bound.add(p_)
@@ -592,17 +627,83 @@ class TokenFlow:
             p_.env = dict(caller_env)
         return out
 
+    def _lookup(self, n, path):
+        """(table name, {key: value name}, default node or None, subscript?) for TABLE.get(head[, default]) / TABLE[head] where TABLE
+        is a module-level dict literal with constant keys and the key is the head token."""
+        if isinstance(n, ast.Call) and isinstance(n.func, ast.Attribute) and n.func.attr == 'get' and 1 <= len(n.args) <= 2 \
+                and not n.keywords and isinstance(n.func.value, ast.Name):
+            tname, key, default, sub = n.func.value.id, n.args[0], (n.args[1] if len(n.args) == 2 else None), False
+        elif isinstance(n, ast.Subscript) and isinstance(n.value, ast.Name) and isinstance(getattr(n, 'ctx', None), ast.Load) \
+                and not isinstance(n.slice, ast.Slice):
+            tname, key, default, sub = n.value.id, n.slice, None, True
+        else:
+            return None
+        if tname in path.env or tname not in self.facts.tables or not isinstance(self.facts.assign_nodes.get(tname), ast.Assign) \
+                or not isinstance(self.facts.assign_nodes[tname].value, ast.Dict):
+            return None
+        if not self.is_head(self.ev(key, path)):
+            return None
+        return tname, self.facts.assign_nodes[tname].value, default, sub
+
+    def _expand_lookup(self, n, path, outcomes):
+        tname, dnode, default, sub = self._lookup(n, path)
+        groups = []             # (value provenance, value text, [keys])
+        keys_all = []
+        for k, v in zip(dnode.keys, dnode.values):
+            if k is None:
+                raise AnalysisError('token-flow: dispatch table {} uses ** unpacking'.format(tname))
+            try:
+                kv = fold(k, self.consts)
+            except NotConstant:
+                raise AnalysisError('token-flow: dispatch table {} has a non-constant key {}'.format(tname, unparse(k)))
+            keys_all.append(kv)
+            text = unparse(v)
+            for g in groups:
+                if g[1] == text:
+                    g[2].append(kv)
+                    break
+            else:
+                groups.append((v, text, [kv]))
+        out = []
+        for vnode, text, keys in groups:
+            keys = [k for k in keys if admits(self.facts, path, k)]
+            if not keys:
+                continue
+            p = path.clone()
+            if len(keys) == 1:
+                p.head_facts.append(('eq', keys[0], True, n))
+            else:
+                p.head_facts.append(('in', ('const', frozenset(keys)), True, n))
+            p.conds.append(('{} -> {}'.format(unparse(n), text), True, n))
+            for q, vn in self._hoist(vnode, p, outcomes):
+                out.append((q, self.ev(vn, q)))
+        cands = self.head_candidates(path)
+        if cands is None or (cands - set(keys_all)):
+            p = path
+            p.head_facts.append(('in', ('const', frozenset(keys_all)), False, n))
+            p.conds.append(('{} -> missing'.format(unparse(n)), True, n))
+            if sub:
+                outcomes.append(Outcome('raise', p, n))
+            else:
+                out.append((p, self.ev(default, p) if default is not None else ('const', None)))
+        return out
+
+    def _expandable(self, n, path):
+        if isinstance(n, ast.Call) and self._callee(n, path) is not None:
+            return True
+        return isinstance(n, (ast.Call, ast.Subscript)) and self._lookup(n, path) is not None
+
     def _hoist(self, node, path, outcomes):
         """[(path, expression)]: every call this evaluator can walk, nested anywhere in the expression, has been walked (forking
         paths) and replaced by a temporary bound to its return value."""
-        if node is None or not any(isinstance(n, ast.Call) and self._callee(n, path) is not None for n in ast.walk(node)):
+        if node is None or not any(self._expandable(n, path) for n in ast.walk(node)):
             return [(path, node)]
         states = [path]
         while states:
             target = None
             for n in ast.walk(node):
-                if isinstance(n, ast.Call) and self._callee(n, states[0]) is not None:
-                    if not any(m is not n and isinstance(m, ast.Call) and self._callee(m, states[0]) is not None for m in ast.walk(n)):
+                if self._expandable(n, states[0]):
+                    if not any(m is not n and self._expandable(m, states[0]) for m in ast.walk(n)):
                         target = n
                         break
             if target is None:
@@ -610,8 +711,9 @@ class TokenFlow:
             self._tmp += 1
             tmp = '__inl{}'.format(self._tmp)
             nxt = []
+            is_call = isinstance(target, ast.Call) and self._callee(target, states[0]) is not None
             for s in states:
-                for s2, rv in self._inline(target, s, outcomes):
+                for s2, rv in (self._inline(target, s, outcomes) if is_call else self._expand_lookup(target, s, outcomes)):
                     s2.env[tmp] = rv
                     nxt.append(s2)
             states = nxt
@@ -805,6 +907,14 @@ def path_key(flow, path):
         first = pos_in[0]
         if first[1][0] == 'ref':
             return ('table', first[1][1]), first[3]
+        # an anonymous set of names (keys of a dispatch dict that share a parser): the named table it spells, if any
+        vals = set(first[1][1])
+        f = flow.facts
+        named = [t for t in list(f.instruction_tables()) + sorted(f.sets) if table_values(f, ('ref', t)) == vals]
+        if not named:
+            named = [t for t in f.instruction_tables() if vals <= set(f.tables[t])]
+        if len(named) >= 1 and (len(named) == 1 or named[0] in f.instruction_tables()):
+            return ('table', named[0]), first[3]
         return ('other', unparse(first[3])), first[3]
     head_tests = {id(f[3]) for f in path.head_facts}
     for text, pol, node in path.conds:
@@ -845,7 +955,9 @@ def dispatch_outcomes(facts, fn_name, tokens_name=None, line_name='line'):
         if line_name in params:
             roots[line_name] = ('line',)
         flow = TokenFlow(facts, tokens_name=tokens_name, line_name=line_name, roots=roots)
-    outcomes = flow.run(fn.body, Path())
+    base = Path()
+    base.env.update(roots)          # closures defined in the function see its parameters
+    outcomes = flow.run(fn.body, base)
     arms = []
     index = {}
     else_out = []
